@@ -682,7 +682,466 @@ def c08(idx: Index, rep: Report, tier: str) -> None:
     rep.require_min(rule, "rekeying_calls", 5)
 
 
-EXTRA3 = {"C08": c08, "C35": c35, "C38": c38, "C36": c36, "C32": c32, "C33": c33, "C31": c31, "C17": c17, "C25": c25, "C20": c20, "C27": c27, "C28": c28}
+# ------------------------------------------------------------------------------------ C01 / C02 / C03 (simulator)
+SIM3 = "engines.sequential_simulator.UPSequentialSimulator"
+
+
+def sim_effects_recorded(idx: Index, rep: Report, prefix: str) -> None:
+    """Conflict detection and the accumulation of several increases on one fluent read the pending-updates map, so
+    every effect that fires must be entered into it: (i) where apply_unsafe / get_unsatisfied_conditions store the
+    result of _evaluate_effect, the store is conditioned on that result alone (`fluent is not None`), never on the
+    state or on the value; (ii) _evaluate_effect answers (None, None) for a firing effect only in the Boolean
+    add-after-delete case."""
+    rule = f"{prefix} T2 every-firing-effect-is-recorded"
+    n = 0
+    for meth in ("apply_unsafe", "get_unsatisfied_conditions"):
+        f = idx.func(f"{SIM3}.{meth}")
+        cfg = cfg_of(f)
+        for node, c in cfg_nodes_with_call(cfg, "_evaluate_effect"):
+            if not (isinstance(node.ast, ast.Assign) and isinstance(node.ast.targets[0], ast.Tuple)):
+                continue
+            results = {x.id for x in ast.walk(node.ast.targets[0]) if isinstance(x, ast.Name)}
+            maps = {a.id for a in c.args if isinstance(a, ast.Name)}
+            for st in cfg.nodes:
+                a = st.ast
+                if not (st.kind == "stmt" and isinstance(a, ast.Assign) and isinstance(a.targets[0], ast.Subscript) and norm(a.targets[0].value) in maps and norm(a.targets[0].slice) in results):
+                    continue
+                if cfg.path_avoiding(node, st, set()) is None:
+                    continue
+                n += 1
+                gs_call = {id(t) for t, _ in guards_dominating(cfg, node)}
+                extra = [t for t, _ in guards_dominating(cfg, st) if id(t) not in gs_call and t.kind == "test" and not ({x.id for x in ast.walk(t.ast) if isinstance(x, ast.Name)} <= results)]
+                rep.check(not extra, rule, f"{meth}: the result of _evaluate_effect is stored whenever there is one", f.loc(a), construct=f"{norm(a)} " + ("under the result's own None test only" if not extra else f"also under `{norm(extra[0].ast)[:60]}`"), detail="" if not extra else "an effect that fired is not entered into the pending updates (e.g. because its value equals the current one): a later assignment to the same fluent is no longer seen as conflicting and a second increase starts from the old value, so apply and is_applicable disagree", function=f.qualname)
+    ee = idx.func(f"{SIM3}._evaluate_effect")
+    ecfg = cfg_of(ee)
+    for nd in ecfg.nodes:
+        if nd.kind != "return" or not (isinstance(nd.ast.value, ast.Tuple) and len(nd.ast.value.elts) == 2 and all(isinstance(e, ast.Constant) and e.value is None for e in nd.ast.value.elts)):
+            continue
+        gs = guards_dominating(ecfg, nd)
+        fires = any(norm(t.ast) == "evaluated_condition" and o for t, o in gs)
+        if not fires:
+            continue
+        n += 1
+        from .extra2 import guard_atoms
+
+        facts = set()
+        for t, o in gs:
+            facts |= guard_atoms(t.ast, o)
+        boolean_case = any(a.endswith(".is_bool_type()") and not a.startswith("not ") for a in facts)
+        rep.check(boolean_case, rule, "_evaluate_effect: a firing effect yields no update only in the Boolean add-after-delete case", ee.loc(nd.ast), construct="return (None, None) under " + "; ".join(norm(t.ast)[:40] + ("" if o else " [false]") for t, o in gs)[:160], detail="" if boolean_case else "a firing non-Boolean effect is dropped (treated as a no-op): it is missing from the pending updates, so a conflicting second assignment in the same step is accepted", function=ee.qualname)
+    rep.count("recording_sites", n)
+    rep.require_min(rule, "recording_sites", 3)
+
+
+def inner_bindings_shadow_outer(idx: Index, rep: Report, rule: str) -> None:
+    """A quantifier body is evaluated under the bindings of the enclosing quantifiers *overridden* by the bindings of
+    the quantifier itself: in the merged map the new bindings (the method's parameter) come last. The reverse order
+    makes a re-bound variable keep the enclosing value."""
+    n = 0
+    for q in ("model.walkers.state_evaluator.StateEvaluator._deep_subs_simplify", "model.walkers.quantifier_simplifier.QuantifierSimplifier._deep_subs_simplify"):
+        f = idx.func(q)
+        params = [p for p in f.params() if p != "self"]
+        if len(params) < 2:
+            raise AnalysisError(f"{rule}: {q} no longer takes (expression, bindings)")
+        new_b = params[1]
+
+        def role(e: ast.AST) -> str:
+            t = norm(e)
+            if t == new_b:
+                return "new"
+            if isinstance(e, ast.Attribute) and norm(e.value) == "self":
+                return "outer"
+            return "?"
+
+        verdict = None
+        where = f.node
+        for a in walk_no_nested(f.node):
+            if isinstance(a, ast.Assign) and isinstance(a.targets[0], ast.Name):
+                v, x = a.value, a.targets[0].id
+                if isinstance(v, ast.Dict) and len(v.keys) == 2 and all(k is None for k in v.keys):
+                    order = [role(e) for e in v.values]
+                    verdict, where = (order == ["outer", "new"]), a
+                elif isinstance(v, ast.Call) and call_name(v) in ("copy", "dict") and (v.args or isinstance(v.func, ast.Attribute)):
+                    base = role(v.func.value) if call_name(v) == "copy" else role(v.args[0])
+                    ups = [c for c in walk_no_nested(f.node) if isinstance(c, ast.Call) and call_name(c) == "update" and norm(c.func.value) == x and c.args]
+                    if base in ("outer", "new") and len(ups) == 1 and role(ups[0].args[0]) in ("outer", "new"):
+                        verdict, where = (base == "outer" and role(ups[0].args[0]) == "new"), ups[0]
+                elif isinstance(v, ast.BinOp) and isinstance(v.op, ast.BitOr):
+                    order = [role(v.left), role(v.right)]
+                    if "?" not in order:
+                        verdict, where = (order == ["outer", "new"]), a
+        n += 1
+        if verdict is None:
+            rep.inconclusive(rule, f"{f.short}: the merge of enclosing and new bindings is not in a recognised form", f.loc(), function=f.qualname)
+        else:
+            rep.check(verdict, rule, f"{f.short}: the quantifier's own bindings override the enclosing ones", f.loc(where), construct=norm(where)[:90], detail="" if verdict else "the enclosing bindings are applied last: when a nested quantifier re-binds a variable of an enclosing one, its body is evaluated for the enclosing object only (Forall x. (… Exists x. p(x)) reads p of the outer x)", function=f.qualname)
+    rep.count("binding_merges", n)
+
+
+def c01(idx: Index, rep: Report, tier: str) -> None:
+    sim_effects_recorded(idx, rep, "C01.4")
+    inner_bindings_shadow_outer(idx, rep, "C01.5 inner-bindings-shadow-outer")
+
+
+def c02(idx: Index, rep: Report, tier: str) -> None:
+    sim_effects_recorded(idx, rep, "C02.5")
+
+
+def c03(idx: Index, rep: Report, tier: str) -> None:
+    sim_effects_recorded(idx, rep, "C03.5")
+
+
+# ------------------------------------------------------------------------------------ C04 / C05: interval helper
+class _Yielded(Exception):
+    pass
+
+
+class _Raised(Exception):
+    pass
+
+
+class _Stub:
+    """An abstract value: attributes and zero-argument methods are looked up in a table (never in repository code)."""
+
+    def __init__(self, name, **table):
+        self._name, self._table = name, table
+
+    def __repr__(self):
+        return self._name
+
+
+class _OrderInterp:
+    """Concrete interpreter for TimeTriggeredPlanValidator._states_in_interval. The function touches time values
+    only through comparisons, so its behaviour is determined by the order type of (trace keys, start, end): running it
+    on every subset of a grid with two points per open region and one per boundary is an exhaustive case analysis."""
+
+    class Unsupported(Exception):
+        pass
+
+    def __init__(self, fn: ast.FunctionDef):
+        self.fn = fn
+
+    def run(self, env):
+        self.out = []
+        self._block(self.fn.body, env)
+        return self.out
+
+    def _block(self, stmts, env):
+        for s in stmts:
+            if isinstance(s, ast.Expr) and isinstance(s.value, ast.Constant):
+                continue
+            if isinstance(s, ast.Assign) and len(s.targets) == 1 and isinstance(s.targets[0], ast.Name):
+                env[s.targets[0].id] = self._expr(s.value, env)
+            elif isinstance(s, ast.If):
+                self._block(s.body if self._expr(s.test, env) else s.orelse, env)
+            elif isinstance(s, ast.For) and isinstance(s.target, ast.Name):
+                for x in list(self._expr(s.iter, env)):
+                    env[s.target.id] = x
+                    self._block(s.body, env)
+            elif isinstance(s, ast.Expr) and isinstance(s.value, ast.Yield):
+                v = self._expr(s.value.value, env)
+                self.out.append(v[0] if isinstance(v, tuple) else v)
+            elif isinstance(s, ast.Expr):
+                self._expr(s.value, env)
+            elif isinstance(s, (ast.Pass, ast.Assert)):
+                continue
+            elif isinstance(s, ast.Return) and s.value is None:
+                raise _Yielded()
+            elif isinstance(s, ast.Assign) and len(s.targets) == 1 and isinstance(s.targets[0], ast.Subscript):
+                self._expr(s.targets[0].value, env)[self._expr(s.targets[0].slice, env)] = self._expr(s.value, env)
+            elif isinstance(s, ast.Raise):
+                raise _Raised(norm(s.exc)[:60] if s.exc is not None else "")
+            else:
+                raise self.Unsupported(type(s).__name__)
+
+    def _expr(self, e, env):
+        if isinstance(e, ast.Constant):
+            return e.value
+        if isinstance(e, ast.Name):
+            if e.id in env:
+                return env[e.id]
+            raise self.Unsupported("name " + e.id)
+        if isinstance(e, ast.Tuple):
+            return tuple(self._expr(x, env) for x in e.elts)
+        if isinstance(e, ast.List):
+            return [self._expr(x, env) for x in e.elts]
+        if isinstance(e, ast.UnaryOp) and isinstance(e.op, ast.Not):
+            return not self._expr(e.operand, env)
+        if isinstance(e, ast.UnaryOp) and isinstance(e.op, ast.USub):
+            return -self._expr(e.operand, env)
+        if isinstance(e, ast.BoolOp):
+            if isinstance(e.op, ast.And):
+                r = True
+                for v in e.values:
+                    r = self._expr(v, env)
+                    if not r:
+                        return r
+                return r
+            r = False
+            for v in e.values:
+                r = self._expr(v, env)
+                if r:
+                    return r
+            return r
+        if isinstance(e, ast.IfExp):
+            return self._expr(e.body if self._expr(e.test, env) else e.orelse, env)
+        if isinstance(e, ast.Compare):
+            left = self._expr(e.left, env)
+            for op, c in zip(e.ops, e.comparators):
+                right = self._expr(c, env)
+                if isinstance(op, (ast.Is, ast.IsNot)):
+                    r = (left is right) == isinstance(op, ast.Is)
+                elif isinstance(op, (ast.Eq, ast.NotEq)):
+                    r = (left == right) == isinstance(op, ast.Eq)
+                elif isinstance(op, (ast.In, ast.NotIn)):
+                    r = (left in right) == isinstance(op, ast.In)
+                elif left is None or right is None:
+                    raise self.Unsupported("ordering comparison with None")
+                elif isinstance(op, ast.Lt):
+                    r = left < right
+                elif isinstance(op, ast.LtE):
+                    r = left <= right
+                elif isinstance(op, ast.Gt):
+                    r = left > right
+                elif isinstance(op, ast.GtE):
+                    r = left >= right
+                else:
+                    raise self.Unsupported(norm(e))
+                if not r:
+                    return False
+                left = right
+            return True
+        if isinstance(e, ast.Subscript):
+            base = self._expr(e.value, env)
+            k = self._expr(e.slice, env)
+            if isinstance(base, dict):
+                if k not in base:
+                    raise self.Unsupported(f"key {k} not in trace")
+                return base[k]
+            return base[k]
+        if isinstance(e, ast.Attribute):
+            base = self._expr(e.value, env)
+            if isinstance(base, _Stub) and e.attr in base._table:
+                return base._table[e.attr]
+            raise self.Unsupported(f"attribute {e.attr}")
+        if isinstance(e, ast.Call) and isinstance(e.func, ast.Attribute) and not e.args and not e.keywords:
+            try:
+                base = self._expr(e.func.value, env)
+            except self.Unsupported:
+                base = None
+            if isinstance(base, _Stub):
+                if e.func.attr in base._table:
+                    return base._table[e.func.attr]
+                raise self.Unsupported(f"method {e.func.attr}")
+        if isinstance(e, ast.Call):
+            fn = norm(e.func)
+            if fn == "Fraction" and len(e.args) == 1:
+                return self._expr(e.args[0], env)
+            if isinstance(e.func, ast.Attribute) and e.func.attr == "append":
+                self._expr(e.func.value, env).append(self._expr(e.args[0], env))
+                return None
+            if fn in ("sorted", "list") and len(e.args) == 1:
+                v = list(self._expr(e.args[0], env))
+                return sorted(v) if fn == "sorted" else v
+            if isinstance(e.func, ast.Attribute) and e.func.attr in ("keys", "items") and not e.args:
+                b = self._expr(e.func.value, env)
+                return list(b.keys()) if e.func.attr == "keys" else list(b.items())
+            if fn in ("max", "min") and e.args:
+                vals = [self._expr(a, env) for a in e.args]
+                if len(vals) == 1:
+                    vals = list(vals[0])
+                return max(vals) if fn == "max" else min(vals)
+        raise self.Unsupported(norm(e)[:60])
+
+
+def interval_states_reference(keys, start, end, open_interval):
+    """The states a condition over the interval has to hold in: the state in force at an instant t is the one produced
+    by the last happening strictly before t (conditions at an instant are judged before that instant's effects)."""
+    before = max(k for k in keys if k < start)
+    upto = max(k for k in keys if k <= start)
+    want = set()
+    if not open_interval:
+        want.add(before)  # the instant `start` itself
+    if end is None or start < end:
+        want.add(upto)  # the instants right after `start`
+        want |= {k for k in keys if start < k and (end is None or k < end)}
+    return want
+
+
+def interval_helper_exhaustive(idx: Index, rep: Report, rule: str) -> None:
+    import itertools
+
+    f = idx.func("engines.plan_validator.TimeTriggeredPlanValidator._states_in_interval")
+    params = [p for p in f.params() if p != "self"]
+    if params != ["trace", "start", "end", "open_interval"]:
+        raise AnalysisError(f"{rule}: signature of _states_in_interval changed to {params}")
+    interp = _OrderInterp(f.node)
+    # grid: -1 is the initial state (always present, before every interval); start = 4, end in {4 (point), 8, None}
+    grid = [1, 2, 4, 5, 6, 8, 9, 10]
+    n = 0
+    bad = None
+    try:
+        for end in (8, None, 4):
+            for open_interval in (False, True):
+                if end == 4 and open_interval:
+                    continue  # a left-open point interval is empty
+                for k in range(len(grid) + 1):
+                    for extra in itertools.combinations(grid, k):
+                        keys = (-1,) + extra
+                        trace = {t: ("state", t) for t in keys}
+                        got = interp.run({"self": None, "trace": trace, "start": 4, "end": end, "open_interval": open_interval})
+                        want = interval_states_reference(keys, 4, end, open_interval)
+                        n += 1
+                        if set(got) != want and bad is None:
+                            bad = (keys, end, open_interval, sorted(set(got)), sorted(want))
+    except _OrderInterp.Unsupported as u:
+        rep.inconclusive(rule, f"_states_in_interval is not interpretable ({u})", f.loc(), function=f.qualname)
+        return
+    rep.count("interval_configurations", n)
+    if bad is None:
+        rep.ok(rule, "_states_in_interval yields exactly the states in force at the instants of the interval", f.loc(), construct=f"{n} order types (happenings before / at / inside / at the end of / after the interval, closed and left-open, bounded, unbounded and point intervals)", function=f.qualname)
+    else:
+        keys, end, op, got, want = bad
+        miss, extra = sorted(set(want) - set(got)), sorted(set(got) - set(want))
+        rep.bad(rule, "_states_in_interval yields exactly the states in force at the instants of the interval", f.loc(), construct=f"{'left-open' if op else 'closed'} interval from 4 to {end}, happenings at {list(keys)}: states of {got} are checked, the reference semantics needs {want}", detail=(f"the state produced at {miss} is in force inside the interval but is never checked: a condition that is false there is accepted" if miss else f"the state produced at {extra} is checked although it is not in force at any instant of the interval: a valid plan is rejected"), function=f.qualname)
+    rep.require_min(rule, "interval_configurations", 1000)
+
+
+
+def same_instant_merge_order_independent(idx: Index, rep: Report, rule: str) -> None:
+    """The effects of one instant are merged by the loop `for f, v in changes.items(): …` of _apply_effects. Whether
+    two effects on one fluent conflict, and the value that results, must not depend on the order in which they are
+    collected; and two Boolean assignments of one action instance resolve to true (add after delete), as in the
+    sequential simulator. Decided by interpreting that loop body on all ordered pairs of abstract effects."""
+    import itertools
+
+    f = idx.func("engines.plan_validator.TimeTriggeredPlanValidator._apply_effects")
+    loops = [l for l in ast.walk(f.node) if isinstance(l, ast.For) and isinstance(l.iter, ast.Call) and call_name(l.iter) == "items" and isinstance(l.target, ast.Tuple) and len(l.target.elts) == 2 and any(isinstance(a, ast.Assign) and isinstance(a.value, ast.Call) and call_name(a.value) == "_apply_effect" and norm(a.targets[0]) == norm(l.iter.func.value) for a in ast.walk(f.node))]
+    if not loops:
+        raise AnalysisError(f"{rule}: the merge loop over the result of _apply_effect was not found in _apply_effects")
+    loop = loops[0]
+    fv, vv = (x.id for x in loop.target.elts)
+    outer = [l for l in ast.walk(f.node) if isinstance(l, ast.For) and any(x is loop for x in ast.walk(l)) and l is not loop]
+    # names of the enclosing loops: (effects of a source, simulated effect, action instance) and the effect
+    eff_names = [l.target.id for l in outer if isinstance(l.target, ast.Name)]
+    inst_names = [l.target.elts[2].id for l in outer if isinstance(l.target, ast.Tuple) and len(l.target.elts) == 3 and isinstance(l.target.elts[2], ast.Name)]
+    dicts = [a for a in f.node.body if isinstance(a, ast.Assign) and isinstance(a.targets[0], ast.Name) and isinstance(a.value, ast.Dict) and not a.value.keys]
+    if len(eff_names) != 1 or len(inst_names) != 1 or len(dicts) < 2:
+        rep.inconclusive(rule, "_apply_effects: roles of the merge loop not recognised", f.loc(loop), function=f.qualname)
+        return
+    interp = _OrderInterp(f.node)
+    TRUE = _Stub("true", bool_constant_value=True)
+    FALSE = _Stub("false", bool_constant_value=False)
+    A, B = _Stub("a", bool_constant_value=None), _Stub("b", bool_constant_value=None)
+    assign = _Stub("assign", is_assignment=True, is_increase=False, is_decrease=False)
+    incr = _Stub("increase", is_assignment=False, is_increase=True, is_decrease=False)
+    i1, i2 = _Stub("instance1"), _Stub("instance2")
+
+    def run(seq, boolean):
+        fl = _Stub("fluent", type=_Stub("type", is_bool_type=boolean))
+        env = {d.targets[0].id: {} for d in dicts}
+        env["self"] = None
+        try:
+            for eff, val, inst in seq:
+                env.update({fv: fl, vv: val, eff_names[0]: eff, inst_names[0]: inst})
+                interp._block(loop.body, env)
+        except _Raised:
+            return "conflict"
+        vals = [d[fl] for d in env.values() if isinstance(d, dict) and fl in d and isinstance(d[fl], _Stub) and d[fl]._name in ("a", "b", "true", "false")]
+        return vals[0]._name if vals else "no update"
+
+    n = 0
+    try:
+        for boolean in (False, True):
+            values = (TRUE, FALSE) if boolean else (A, B)
+            items = [(assign, v, i) for v in values for i in (i1, i2)] + ([] if boolean else [(incr, A, i1), (incr, A, i2)])
+            for x in items:
+                if x[0] is assign:
+                    r = run([x, x], boolean)
+                    n += 1
+                    rep.check(r == x[1]._name, rule, f"[{x[0]} {x[1]} by {x[2]}] twice on one fluent is that value, not a conflict", f.loc(loop), construct=f"{x[0]} {x[1]} ; {x[0]} {x[1]} -> {r}", detail="" if r == x[1]._name else "an action that assigns the same value twice to one ground fluent (aliased parameters) is accepted by the sequential simulator and rejected here", function=f.qualname)
+            for x, y in itertools.combinations(items, 2):
+                r1, r2 = run([x, y], boolean), run([y, x], boolean)
+                n += 1
+                lx = f"{x[0]} {x[1]} by {x[2]}"
+                ly = f"{y[0]} {y[1]} by {y[2]}"
+                both_incr = x[0] is incr and y[0] is incr
+                ok = r1 == r2 or both_incr  # two increases: the stub cannot add, the later one is stored in either order
+                rep.check(ok, rule, f"[{lx}] and [{ly}] on one {'Boolean' if boolean else 'numeric'} fluent at one instant: same outcome in both orders", f.loc(loop), construct=f"{lx} ; {ly} -> {r1} / reversed -> {r2}", detail="" if ok else "whether two simultaneous effects conflict (or which value survives) depends on the order in which they were collected: the verdict of the validator depends on the order of the plan's entries / of the action's effects, and differs from the sequential simulator's", function=f.qualname)
+                if boolean and x[0] is assign and y[0] is assign and x[2] is y[2] and x[1] is not y[1]:
+                    ok2 = r1 == "true" and r2 == "true"
+                    rep.check(ok2, rule, f"[{lx}] and [{ly}] by one action instance resolve to true (add after delete)", f.loc(loop), construct=f"{r1} / reversed -> {r2}", detail="" if ok2 else "a Boolean fluent that one action both adds and deletes does not end up true: the time-triggered and the sequential validator compute different successor states", function=f.qualname)
+    except _OrderInterp.Unsupported as u:
+        rep.inconclusive(rule, f"the merge loop of _apply_effects is not interpretable ({u})", f.loc(loop), function=f.qualname)
+        return
+    rep.count("effect_pairs", n)
+    rep.require_min(rule, "effect_pairs", 15)
+
+
+def quantified_effects_accumulate(idx: Index, rep: Report, rule: str) -> None:
+    """_apply_effect expands a quantified effect into instances and collects their results in a local map; an
+    increase / decrease must start from the value an earlier instance already produced (read that map), otherwise
+    only the last instance counts."""
+    f = idx.func("engines.plan_validator.TimeTriggeredPlanValidator._apply_effect")
+    n = 0
+    for l in walk_no_nested(f.node):
+        if not (isinstance(l, ast.For) and any(isinstance(c, ast.Call) and call_name(c) == "expand_effect" for c in ast.walk(l.iter))):
+            continue
+        stored = {norm(a.targets[0].value) for st in l.body for a in ast.walk(st) if isinstance(a, ast.Assign) and isinstance(a.targets[0], ast.Subscript) and isinstance(a.targets[0].value, ast.Name)}
+        for r in sorted(stored):
+            n += 1
+            reads = [x for st in l.body for x in ast.walk(st) if (isinstance(x, ast.Subscript) and isinstance(x.ctx, ast.Load) and norm(x.value) == r) or (isinstance(x, ast.Compare) and any(norm(c) == r for c in x.comparators) and isinstance(x.ops[0], (ast.In, ast.NotIn))) or (isinstance(x, ast.Call) and call_name(x) == "get" and norm(x.func.value) == r)]
+            rep.check(bool(reads), rule, f"_apply_effect: an instance of a quantified increase starts from what earlier instances stored in `{r}`", f.loc(l), construct=f"`{r}` is " + ("read back inside the expansion loop" if reads else "only written inside the expansion loop"), detail="" if reads else "every instance of `increase x by w(v) forall v` is computed from the value before the effect: only the last one counts, the sequential simulator adds them all", function=f.qualname)
+    rep.count("expansion_loops", n)
+    rep.require_min(rule, "expansion_loops", 1)
+
+
+def c04(idx: Index, rep: Report, tier: str) -> None:
+    interval_helper_exhaustive(idx, rep, "C04.3 T15 interval-states-exhaustive")
+    quantified_effects_accumulate(idx, rep, "C04.5 T1 quantified-effects-accumulate")
+    same_instant_merge_order_independent(idx, rep, "C04.4 T15 same-instant-merge-order-independent")
+
+
+def c05(idx: Index, rep: Report, tier: str) -> None:
+    interval_helper_exhaustive(idx, rep, "C05.7 T15 interval-states-exhaustive")
+    same_instant_merge_order_independent(idx, rep, "C05.8 T15 same-instant-merge-order-independent")
+
+
+# ------------------------------------------------------------------------------------ C06
+def c06(idx: Index, rep: Report, tier: str) -> None:
+    """NegativeConditionsRemover keeps a fluent `not_f` opposite to `f`: every effect `f := v` is mirrored by
+    `not_f := Not(v)` (simplified). The mirrored value has to be the negation of the *expression* v — choosing a
+    constant from `v.is_true()` is right for constant values only (`f := g` would set not_f := true whatever g is)."""
+    from ..dataflow import reaching_defs, def_value
+
+    rule = "C06.vi T1 mirrored-effect-negates-the-value"
+    f = idx.func("engines.compilers.negative_conditions_remover.NegativeConditionsRemover._compile")
+    cfg = cfg_of(f)
+    rd = reaching_defs(cfg)
+    negs = {norm(a.targets[0]) for a in walk_no_nested(f.node) if isinstance(a, ast.Assign) and isinstance(a.targets[0], ast.Name) and isinstance(a.value, ast.Call) and call_name(a.value) == "get" and "mapping" in norm(a.value.func.value)}
+    if not negs:
+        raise AnalysisError(f"{rule}: the lookup of the negation fluent was not found in NegativeConditionsRemover._compile")
+    n = 0
+    for node in cfg.nodes:
+        if node.ast is None or node.kind != "stmt":
+            continue
+        for c in ast.walk(node.ast):
+            if not (isinstance(c, ast.Call) and call_name(c) == "Effect" and len(c.args) >= 2 and any(isinstance(x, ast.Name) and x.id in negs for x in ast.walk(c.args[0]))):
+                continue
+            n += 1
+            val = c.args[1]
+            exprs = [val]
+            if isinstance(val, ast.Name):
+                exprs = [v for d in rd[node].get(val.id, ()) for v in [def_value(d, val.id)] if v is not None]
+            # the original value: the second name of `fl, v = e.fluent, e.value`
+            origs = {norm(a.targets[0].elts[1]) for a in ast.walk(f.node) if isinstance(a, ast.Assign) and isinstance(a.targets[0], ast.Tuple) and len(a.targets[0].elts) == 2 and isinstance(a.value, ast.Tuple) and len(a.value.elts) == 2 and isinstance(a.value.elts[1], ast.Attribute) and a.value.elts[1].attr == "value"}
+            ok = bool(exprs) and all(any(isinstance(x, ast.Call) and call_name(x) == "Not" and x.args and norm(x.args[0]) in origs for x in ast.walk(e)) for e in exprs)
+            rep.check(ok, rule, "the effect on the negation fluent assigns Not(<value of the original effect>)", f.loc(c), construct=f"{norm(c.args[0])[:50]} := {norm(exprs[0])[:70] if exprs else norm(val)}", detail="" if ok else "the mirrored value is not the negation of the effect's value expression: for a non-constant value (`f := g`) the fluent and its negation fluent can both be true after the action, and the compiled problem accepts plans whose `not f` conditions are false in the original", function=f.qualname)
+    rep.count("mirrored_effects", n)
+    rep.require_min(rule, "mirrored_effects", 3)
+
+
+EXTRA3 = {"C06": c06, "C04": c04, "C05": c05, "C01": c01, "C02": c02, "C03": c03, "C08": c08, "C35": c35, "C38": c38, "C36": c36, "C32": c32, "C33": c33, "C31": c31, "C17": c17, "C25": c25, "C20": c20, "C27": c27, "C28": c28}
 
 
 def run_extra3(prop: str, idx: Index, rep: Report, tier: str) -> None:
